@@ -36,9 +36,13 @@ pub fn q(e: &Expr) -> String {
 }
 
 /// Is this expression a way of naming "the iterator whose state we track"?
-fn is_iter_recv(e: &Expr) -> bool {
-    matches!(q(e).as_str(),
-        "self" | "self.inner" | "self.inner.inner_mut()" | "self.inner.inner()" | "self.inner_mut()" | "self.inner()" | "s.inner_mut()")
+fn is_iter_recv(e: &Expr, env: &Env) -> bool {
+    let t = q(e);
+    if matches!(t.as_str(),
+        "self" | "self.inner" | "self.inner.inner_mut()" | "self.inner.inner()" | "self.inner_mut()" | "self.inner()" | "s.inner_mut()") { return true; }
+    // a local bound to the iterator (`let it = self.inner.inner_mut();`, `let Self { inner, .. } = self;`), possibly projected again
+    let head = t.split('.').next().unwrap_or("");
+    env.vars.get(head).map(|v| v == "ITER").unwrap_or(false) && matches!(&t[head.len()..], "" | ".inner_mut()" | ".inner()" | ".inner")
 }
 
 /// Splits `(L op R)` at its top-level binary operator (operators are always rendered with surrounding blanks).
@@ -160,7 +164,7 @@ pub fn ex(e: &Expr, env: &mut Env) -> Result<String, String> {
         Expr::MethodCall(m) => {
             let name = m.method.to_string();
             let recv_txt = q(&m.receiver);
-            if is_iter_recv(&m.receiver) || recv_txt == "self.buffer()" || recv_txt == "self.inner.buffer()" {
+            if is_iter_recv(&m.receiver, env) || recv_txt == "self.buffer()" || recv_txt == "self.inner.buffer()" {
                 let mut args = Vec::new();
                 for a in &m.args { args.push(ex(a, env)?); }
                 match name.as_str() {
@@ -271,6 +275,61 @@ pub fn ex(e: &Expr, env: &mut Env) -> Result<String, String> {
             for s in le.safe.iter().chain(ee.safe.iter()).chain(ge.safe.iter()) { if !env.safe.contains(s) { env.safe.push(s.clone()); } }
             m3(&lv, &ev, &gv)
         }
+        Expr::Match(m) if matches!(&*m.expr, Expr::MethodCall(c) if c.method == "checked_sub" && c.args.len() == 1) => {
+            // match a.checked_sub(b) { Some(x) => A, None => B }
+            let (a, b) = checked_sub_operands(&m.expr, env)?;
+            let mut some: Option<(Option<String>, &Expr)> = None;
+            let mut none: Option<&Expr> = None;
+            for arm in &m.arms {
+                if arm.guard.is_some() { return Err("match guard".into()); }
+                let pt = { let p = &arm.pat; quote::quote!(#p).to_string().replace(' ', "") };
+                if pt == "None" || pt == "_" { if none.is_none() { none = Some(&arm.body); } }
+                else { some = Some((some_binding(&arm.pat)?, &arm.body)); }
+            }
+            let (bind, sb) = some.ok_or("no `Some` arm")?;
+            let nb = none.ok_or("no `None` arm")?;
+            option_branches(env, &a, &b, bind.as_deref(), sb, nb)?
+        }
+        Expr::Match(m) if m.arms.iter().any(|a| matches!(&a.pat, Pat::Lit(l) if matches!(&l.lit, syn::Lit::Int(_)))) => {
+            // match <nat> { 0 => A, 1 => B, d => C }: a chain of equality tests; the last arm binds the value or is `_`
+            let c = ex(&m.expr, env)?;
+            let mut taken: Vec<String> = vec![];   // conditions of the arms passed over
+            let mut arms: Vec<(Option<String>, String, Env)> = vec![];
+            for arm in &m.arms {
+                if arm.guard.is_some() { return Err("match guard".into()); }
+                let (cond, bind) = match &arm.pat {
+                    Pat::Lit(l) => { let t = q(&Expr::Lit(syn::ExprLit { attrs: vec![], lit: l.lit.clone() })); let t = t.trim_end_matches("usize").trim_end_matches('_').to_string(); (Some(format!("({c} = {t})")), None) }
+                    Pat::Ident(i) => (None, Some(i.ident.to_string())),
+                    Pat::Wild(_) => (None, None),
+                    _ => return Err("match pattern".into()),
+                };
+                let mut aenv = env.clone();
+                aenv.safe = Vec::new();
+                let npush = taken.len() + cond.is_some() as usize;
+                for t in &taken { aenv.path.push(neg(t)); }
+                if let Some(cd) = &cond { aenv.path.push(cd.clone()); }
+                if let Some(b) = bind { aenv.vars.insert(b, c.clone()); }
+                let v = ex(&arm.body, &mut aenv)?;
+                for _ in 0..npush { aenv.path.pop(); }
+                let last = cond.is_none();
+                if let Some(cd) = &cond { taken.push(cd.clone()); }
+                arms.push((cond, v, aenv));
+                if last { break; }
+            }
+            let (lc, mut val, last_env) = arms.pop().ok_or("empty match")?;
+            if lc.is_some() { return Err("match on a number without a catch-all arm".into()); }
+            let (mut idx, mut cch, publ) = (last_env.index.clone(), last_env.cached.clone(), last_env.publ.clone());
+            let mut safes = last_env.safe.clone();
+            for (cd, v, e) in arms.into_iter().rev() {
+                let cd = cd.unwrap();
+                if e.publ != publ { return Err("publication differs between arms".into()); }
+                val = merge(&cd, &v, &val); idx = merge(&cd, &e.index, &idx); cch = merge(&cd, &e.cached, &cch);
+                for s in e.safe { if !safes.contains(&s) { safes.push(s); } }
+            }
+            env.index = idx; env.cached = cch; env.publ = publ;
+            for s in safes { if !env.safe.contains(&s) { env.safe.push(s); } }
+            val
+        }
         Expr::Match(m) => {
             // match <bool> { true => a, false => b }
             let c = ex(&m.expr, env)?;
@@ -297,6 +356,15 @@ pub fn ex(e: &Expr, env: &mut Env) -> Result<String, String> {
             env.publ = te.publ.clone();
             for s in te.safe.iter().chain(fe.safe.iter()) { if !env.safe.contains(s) { env.safe.push(s.clone()); } }
             merge(&c, &tv, &fv)
+        }
+        Expr::If(i) if matches!(&*i.cond, Expr::Let(_)) => {
+            // if let Some(x) = a.checked_sub(b) { A } else { B }
+            let l = match &*i.cond { Expr::Let(l) => l, _ => unreachable!() };
+            let (a, b) = checked_sub_operands(&l.expr, env)?;
+            let bind = some_binding(&l.pat)?;
+            let else_e = &i.else_branch.as_ref().ok_or("`if let` without else")?.1;
+            let then_e = Expr::Block(syn::ExprBlock { attrs: vec![], label: None, block: i.then_branch.clone() });
+            option_branches(env, &a, &b, bind.as_deref(), &then_e, else_e)?
         }
         Expr::If(i) => {
             let c = ex(&i.cond, env)?;
@@ -335,14 +403,78 @@ pub fn ex(e: &Expr, env: &mut Env) -> Result<String, String> {
                 let a = ex(&c.args[0], env)?;
                 let b = ex(&c.args[1], env)?;
                 format!("({base} {a} {b})")
+            } else if let Some((params, body)) = env.helpers.clone().get(&format!("fn:{base}")) {
+                // a free helper function of the crate (pure index arithmetic): executed in place
+                if params.len() != c.args.len() || env.depth >= 4 { return Err(format!("call `{f}`")); }
+                let mut args = Vec::new();
+                for a in &c.args { args.push(ex(a, env)?); }
+                let saved = std::mem::take(&mut env.vars);
+                for (p, a) in params.iter().zip(args.iter()) { env.vars.insert(p.clone(), a.clone()); }
+                env.depth += 1;
+                let r = block(body, env);
+                env.depth -= 1;
+                env.vars = saved;
+                r?.ok_or(format!("`{f}` returns nothing"))?
             } else { return Err(format!("call `{f}`")); }
         }
         _ => return Err(format!("expression `{}`", q(e))),
     })
 }
 
+fn checked_sub_operands(e: &Expr, env: &mut Env) -> Result<(String, String), String> {
+    match e {
+        Expr::Paren(p) => checked_sub_operands(&p.expr, env),
+        Expr::MethodCall(c) if c.method == "checked_sub" && c.args.len() == 1 => { let a = ex(&c.receiver, env)?; let b = ex(&c.args[0], env)?; Ok((a, b)) }
+        _ => Err(format!("`{}` is not a `checked_sub`", q(e))),
+    }
+}
+
+/// `Some(x)` / `Some(_)`: the bound name, if any.
+fn some_binding(p: &Pat) -> Result<Option<String>, String> {
+    if let Pat::TupleStruct(ts) = p {
+        let path = &ts.path;
+        if quote::quote!(#path).to_string().replace(' ', "").ends_with("Some") && ts.elems.len() == 1 {
+            return match &ts.elems[0] { Pat::Ident(i) => Ok(Some(i.ident.to_string())), Pat::Wild(_) => Ok(None), _ => Err("pattern inside `Some`".into()) };
+        }
+    }
+    Err("pattern is not `Some(..)`".into())
+}
+
+/// The two continuations of `a.checked_sub(b)`: `Some(a - b)` when `a ≥ b`, `None` otherwise.
+fn option_branches(env: &mut Env, a: &str, b: &str, bind: Option<&str>, some_e: &Expr, none_e: &Expr) -> Result<String, String> {
+    let c = format!("({a} ≥ {b})");
+    let mut te = env.clone();
+    te.safe = Vec::new();
+    te.path.push(c.clone());
+    if let Some(n) = bind { te.vars.insert(n.to_string(), format!("({a} - {b})")); }
+    let tv = ex(some_e, &mut te)?;
+    te.path.pop();
+    let mut fe = env.clone();
+    fe.safe = Vec::new();
+    fe.path.push(neg(&c));
+    let fv = ex(none_e, &mut fe)?;
+    fe.path.pop();
+    if te.publ != fe.publ { return Err("publication differs between branches".into()); }
+    env.index = merge(&c, &te.index, &fe.index);
+    env.cached = merge(&c, &te.cached, &fe.cached);
+    env.publ = te.publ.clone();
+    for s in te.safe.iter().chain(fe.safe.iter()) { if !env.safe.contains(s) { env.safe.push(s.clone()); } }
+    Ok(merge(&c, &tv, &fv))
+}
+
 fn stmt(s: &Stmt, env: &mut Env) -> Result<Option<String>, String> {
     match s {
+        Stmt::Local(l) if matches!(&l.pat, Pat::Struct(_)) && l.init.as_ref().map(|i| q(&i.expr) == "self").unwrap_or(false) => {
+            // `let Self { inner, .. } = self;`: the field that holds the wrapped iterator is an alias of it
+            if let Pat::Struct(ps) = &l.pat { for f in &ps.fields { if let syn::Member::Named(n) = &f.member { if n == "inner" {
+                if let Pat::Ident(i) = &*f.pat { env.vars.insert(i.ident.to_string(), "ITER".into()); }
+            } } } }
+            Ok(None)
+        }
+        Stmt::Local(l) if l.init.as_ref().map(|i| !matches!(&*i.expr, Expr::Path(_)) && is_iter_recv(&i.expr, env) && q(&i.expr) != "self").unwrap_or(false) && matches!(&l.pat, Pat::Ident(_)) => {
+            if let Pat::Ident(i) = &l.pat { env.vars.insert(i.ident.to_string(), "ITER".into()); }
+            Ok(None)
+        }
         Stmt::Local(l) => {
             let name = match &l.pat {
                 Pat::Ident(i) => i.ident.to_string(),
@@ -437,6 +569,12 @@ fn collect_helpers(src: &mut Src, path: &str) -> std::rc::Rc<BTreeMap<String, (V
     fn has_cfg(attrs: &[syn::Attribute]) -> bool { attrs.iter().any(|a| a.path().is_ident("cfg")) }
     let mut map = BTreeMap::new();
     let mut ambiguous = std::collections::BTreeSet::new();
+    // free functions (`fn:<name>`) of the iterators' module and of the file itself
+    for rel in ["src/iterators/mod.rs", "src/iterators/iterator_trait.rs", path] {
+        if let Ok(file) = src.file(rel) {
+            for it in &file.items { if let SItem::Fn(f) = it { if !has_cfg(&f.attrs) { map.insert(format!("fn:{}", f.sig.ident), (params(&f.sig), (*f.block).clone())); } } }
+        }
+    }
     for (rel, traits_only) in [("src/iterators/iterator_trait.rs", true), (path, false)] {
         let mut here = BTreeMap::new();
         let mut amb_here = std::collections::BTreeSet::new();
@@ -500,6 +638,7 @@ fn ptr_off(e: &Expr, env: &mut Env) -> Result<String, String> {
             let n = q(e);
             match env.vars.get(&n) { Some(v) if v.starts_with("PTR@") => Ok(v[4..].to_string()), _ => Err(format!("`{n}` is not a pointer into the storage")) }
         }
+        Expr::MethodCall(m) if m.args.is_empty() && (m.method == "cast" || m.method == "cast_mut" || m.method == "cast_const") => ptr_off(&m.receiver, env),
         Expr::MethodCall(m) if m.method == "add" && m.args.len() == 1 => {
             let base = ptr_off(&m.receiver, env)?;
             let off = ex(&m.args[0], env)?;
@@ -596,6 +735,14 @@ fn pair_val(e: &Expr, env: &mut Env) -> Result<(Sl, Sl), String> {
         Expr::Tuple(t) if t.elems.len() == 2 => Ok((slice_val(&t.elems[0], env)?, slice_val(&t.elems[1], env)?)),
         Expr::Block(b) => chunk_block(&b.block.stmts, env, &pair_val),
         Expr::Unsafe(u) => chunk_block(&u.block.stmts, env, &pair_val),
+        Expr::If(i) if matches!(&*i.cond, Expr::Let(_)) => {
+            let l = match &*i.cond { Expr::Let(l) => l, _ => unreachable!() };
+            let (a, b) = checked_sub_operands(&l.expr, env)?;
+            let bind = some_binding(&l.pat)?;
+            let else_e = &i.else_branch.as_ref().ok_or("`if let` without else")?.1;
+            let then_e = Expr::Block(syn::ExprBlock { attrs: vec![], label: None, block: i.then_branch.clone() });
+            pair_option(env, &a, &b, bind.as_deref(), &then_e, else_e)
+        }
         Expr::If(i) => {
             let c = ex(&i.cond, env)?;
             env.path.push(c.clone());
@@ -609,8 +756,35 @@ fn pair_val(e: &Expr, env: &mut Env) -> Result<(Sl, Sl), String> {
             let (eh, et) = f?;
             Ok(((merge(&c, &th.0, &eh.0), merge(&c, &th.1, &eh.1)), (merge(&c, &tt.0, &et.0), merge(&c, &tt.1, &et.1))))
         }
+        Expr::Match(m) if matches!(&*m.expr, Expr::MethodCall(c) if c.method == "checked_sub" && c.args.len() == 1) => {
+            let (a, b) = checked_sub_operands(&m.expr, env)?;
+            let mut some: Option<(Option<String>, &Expr)> = None;
+            let mut none: Option<&Expr> = None;
+            for arm in &m.arms {
+                let pt = { let p = &arm.pat; quote::quote!(#p).to_string().replace(' ', "") };
+                if pt == "None" || pt == "_" { if none.is_none() { none = Some(&arm.body); } } else { some = Some((some_binding(&arm.pat)?, &arm.body)); }
+            }
+            let (bind, sb) = some.ok_or("no `Some` arm")?;
+            pair_option(env, &a, &b, bind.as_deref(), sb, none.ok_or("no `None` arm")?)
+        }
         e => Ok((slice_val(e, env)?, ("0".into(), "0".into()))),
     }
+}
+
+fn pair_option(env: &mut Env, a: &str, b: &str, bind: Option<&str>, some_e: &Expr, none_e: &Expr) -> Result<(Sl, Sl), String> {
+    let c = format!("({a} ≥ {b})");
+    let saved = env.vars.clone();
+    env.path.push(c.clone());
+    if let Some(n) = bind { env.vars.insert(n.to_string(), format!("({a} - {b})")); }
+    let t = pair_val(some_e, env);
+    env.path.pop();
+    env.vars = saved;
+    let (th, tt) = t?;
+    env.path.push(neg(&c));
+    let f = pair_val(none_e, env);
+    env.path.pop();
+    let (eh, et) = f?;
+    Ok(((merge(&c, &th.0, &eh.0), merge(&c, &th.1, &eh.1)), (merge(&c, &tt.0, &et.0), merge(&c, &tt.1, &et.1))))
 }
 
 /// The closure passed to `self.check(count).then(|| ...)`.
@@ -649,9 +823,12 @@ fn chunk_fn(src: &mut Src, func: &str, lean: &str, vmem: bool) -> Result<String,
             }
         }
     }
-    let b = found.ok_or(format!("fn `{func}` (vmem={vmem}) not found"))?;
+    let b = found.ok_or(format!("fn `{func}` (vmem={vmem}) not found"))?.clone();
+    let b = &b;
+    let helpers = collect_helpers(src, "src/iterators/iterator_trait.rs");
     let (chk, body) = then_closure(b)?;
     let mut env = Env::new();
+    env.helpers = helpers;
     env.vars.insert("count".into(), "count".into());
     let chk = ex(chk, &mut env)?;
     // the closure body: lets, unsafe, then a tuple of slices / a conditional between tuples / a single slice
